@@ -59,6 +59,7 @@ class State:
         self.last_susp = None       # Snap taken right after the last suspension's havoc (or entry)
         self.cm_stack = ()
         self.wrote = frozenset()    # heap keys written on this path since entry
+        self.fact_ids = frozenset() # ids of pc entries that are closed facts (not branch conditions)
         self.constructing = frozenset()
         self.callee_view = False
         self.step_base = z3.IntVal(0)
@@ -95,6 +96,7 @@ class State:
         s.last_susp = self.last_susp
         s.cm_stack = self.cm_stack
         s.wrote = self.wrote
+        s.fact_ids = self.fact_ids
         s.clock = self.clock
         s.constructing = self.constructing
         s.callee_view = self.callee_view
@@ -121,6 +123,13 @@ class State:
             return
         self.pc.append(cond)
 
+    def assume_fact(self, cond):
+        """a closed fact about the current heap (not a branch condition): pure evaluations export it to their caller"""
+        if z3.is_true(cond):
+            return
+        self.pc.append(cond)
+        self.fact_ids = self.fact_ids | {cond.get_id()}
+
     def note(self, s):
         self.trace.append(s)
 
@@ -142,6 +151,11 @@ class State:
             raise Unsupported("heap write inside a specification expression")
         self.heap[key] = arr
         self.wrote = self.wrote | {key}
+        # the abstract truth value of conditions is a function of the heap: a new heap has a new (unknown) one
+        tk = "Condition.$truth"
+        if key != tk and tk in self.heap:
+            from .core import fresh
+            self.heap[tk] = fresh("Hw!truth", self.heap[tk].sort())
 
 
 class HeapSpace:
